@@ -30,6 +30,21 @@ def cases(rng, tier):
          ("gate", "outer", ["a", "b"], [], [("apply", "swap", [("r", "b"), ("r", "a")], [])]),
          ("apply", "outer", [q0, q1], [])],
     ]
+    # the same call before and after a definition that shadows a built-in its body uses (names in a body are resolved
+    # when the gate is applied): identical qubits and parameters, directly, with a parameter, and one level down
+    shadow += [
+        [("gate", "prep", ["a"], [], [("apply", "h", [("r", "a")], [])]), ("apply", "prep", [q0], []),
+         ("gate", "h", ["a"], [], [("apply", "x", [("r", "a")], [])]), ("apply", "prep", [q0], [])],
+        [("gate", "rot", ["a"], ["t"], [("apply", "rz", [("r", "a")], [("var", "t")])]), ("apply", "rot", [q1], [("num", "1.25")]),
+         ("gate", "rz", ["a"], ["t"], [("apply", "rx", [("r", "a")], [("var", "t")])]), ("apply", "rot", [q1], [("num", "1.25")]),
+         ("apply", "rot", [q1], [("num", "0.5")])],
+        [("gate", "inner", ["a"], [], [("apply", "z", [("r", "a")], [])]),
+         ("gate", "outer", ["a"], [], [("apply", "inner", [("r", "a")], []), ("apply", "h", [("r", "a")], [])]),
+         ("apply", "outer", [q0], []), ("gate", "z", ["a"], [], [("apply", "x", [("r", "a")], [])]), ("apply", "outer", [q0], []),
+         ("apply", "outer", [q1], [])],
+        [("gate", "pair", ["a", "b"], [], [("apply", "cz", [("r", "a"), ("r", "b")], [])]), ("apply", "pair", [q0, q1], []),
+         ("gate", "cz", ["a", "b"], [], [("apply", "cx", [("r", "a"), ("r", "b")], [])]), ("apply", "pair", [q0, q1], [])],
+    ]
     for prog in shadow:
         nodes = pre + prog
         c = {"chunks": [nodes], "seed": 1, "lay": None}
